@@ -522,7 +522,7 @@ fn scenario_case(src: &mut Src, root: &Path, thorough: bool) -> CaseResult {
 
 pub fn run(mut rep: Report) -> ! {
     rep.set_rule(
-        "(a) 400 scenarios (thorough: 20 000) are only run plainly and in place without fault and judged; (b) fault enumeration on 24 (thorough: 1 500) scenarios. scenario = 1-3 files (relative, ./d/, absolute, d/../ paths; .json and .yaml names; 0-5 values plus sometimes a 60-string array, in the thorough tier a 6000-number array; separators newline/blank/none; 9 permission modes incl. read-only and group/other-writable; umask 022/077/002/027) x 14 filters (identity, growing, shrinking, empty, error at a trigger value after 0-2 outputs, path error, halt / halt_error at a trigger value, input-consuming) x output options (pretty, -c, -r, --tab, -cS, -s) x failure position (trigger or malformed text inserted at value k of any file); \
+        "(a) 400 scenarios (thorough: 6 000) are only run plainly and in place without fault and judged; (b) fault enumeration on 24 (thorough: 800) scenarios. scenario = 1-3 files (relative, ./d/, absolute, d/../ paths; .json and .yaml names; 0-5 values plus sometimes a 60-string array, in the thorough tier a 6000-number array; separators newline/blank/none; 9 permission modes incl. read-only and group/other-writable; umask 022/077/002/027) x 14 filters (identity, growing, shrinking, empty, error at a trigger value after 0-2 outputs, path error, halt / halt_error at a trigger value, input-consuming) x output options (pretty, -c, -r, --tab, -cS, -s) x failure position (trigger or malformed text inserted at value k of any file); \
          each scenario is run plainly per file (= expected new contents), in place without fault, in place under strace to list the system calls after the first input file is opened, and then once per (call, fault): SIGKILL delivered before the call, and the call failing with each error code that applies (write: ENOSPC/EINTR/EIO; open: EACCES/EMFILE; rename/link: EACCES/EXDEV; chmod: EPERM; stat: EACCES; mmap: ENOMEM; read/close/fsync/truncate: EIO; unlink: EACCES); all calls are enumerated, except that beyond 40 write calls the first 10, last 10 and 16 evenly spaced ones are taken, and EINTR/EIO are injected at every third write only; \
          judged after the process ended: every file holds its original bytes or the complete expected output (a failing file: original; a halting file: either), no file is replaced after one that was kept, files after a failing one are untouched, exit 0 implies every file replaced with its permission bits intact, a process that ended by itself leaves no other directory entry (unless unlink was made to fail), without fault files before a failing one are replaced and the exit status is non-zero iff some file fails; \
          evaluation = one run; non-trivial = fault at or after the creation of the first temporary file",
@@ -533,10 +533,10 @@ pub fn run(mut rep: Report) -> ! {
     let thorough = !rep.quick();
     // (process creation does not scale beyond ~90 runs/s on this machine, whatever the number of workers)
     rep.workers = rep.workers.min(4);
-    let n = rep.n(24, 1_500);
+    let n = rep.n(24, 800);
     {
         let r = root.clone();
-        let np = rep.n(400, 20_000);
+        let np = rep.n(400, 6_000);
         let w = rep.workers;
         rep.workers = 8;
         rep.random("in-place-runs-without-fault", np, 96, move |src| plain_case(src, &r));
